@@ -9,6 +9,9 @@ CHECKS = {
  "C05": ("model_checking", "same engine as C03; clauses C05_RefsExact / C05_NoResidue / C05_DeleteAlwaysCleans against the history ghost", "§5 C05"),
  "C11": ("model_checking", "contract model checking over metadata alphabets + replay of every state x call; clauses C11_DocsExact / C11_Retrieve / C11_Isolation", "§5 C11"),
  "C17": ("model_checking", "every reachable contract state x invalid-argument template and read-only call, byte-for-byte tree comparison, judged by TLC clause C17_*", "§5 C17"),
+ "C07": ("model_checking", "every interleaving (2 threads, state-cached exhaustive DFS under a cooperative scheduler at file-system-call and lock-operation granularity) of each related call pair from 5 start states on the REAL code; each distinct terminal outcome judged by TLC (TraceLin): some permutation of the calls through the contract Apply must reproduce results and final state", "§5 C07"),
+ "C08": ("model_checking", "deadlock detection (no runnable thread while a call is unfinished), lock lists empty at quiescence and follow-up calls on every involved identifier must complete, over every execution explored for C07 and C12; judged by TLC (TraceLin I_NoDeadlock / I_NothingLocked)", "§5 C08"),
+ "C12": ("model_checking", "every interleaving of metadata call pairs on one pid (store/retrieve/delete(format)/delete(all)/delete_object) on the real code; outcomes judged linearizable against Apply by TLC (TraceLin)", "§5 C12"),
 }
 NOT_YET = {}
 
